@@ -153,7 +153,7 @@ def corpus_faults():
             if not m or l.startswith(';'):
                 continue
             mn = m.group(2).lower()
-            if mn in ('while', 'rept', 'irp', 'irpc', 'irpn', 'macro', 'if', 'include', 'binclude', 'end'):
+            if mn in ('while', 'rept', 'irp', 'irpc', 'irpn', 'macro', 'if', 'include', 'binclude', 'end', 'set', 'equ', 'eval'):
                 continue     # constructs whose operand controls repetition / file access: excluded from operand mutation
             if mn in seen or len(seen) > 400:
                 continue
